@@ -76,7 +76,9 @@ func (psp *pbSubProto) Unpack(m erpc.Message) error {
 		return err
 	}
 
-	m.SetSize(uint32(len(b)))
+	if err = m.SetSize(uint32(len(b))); err != nil {
+		return err
+	}
 
 	s := &pb.Payload{}
 	err = codec.ProtoUnmarshal(b, s)
@@ -86,7 +88,9 @@ func (psp *pbSubProto) Unpack(m erpc.Message) error {
 
 	// read transfer pipe
 	for _, r := range s.XferPipe {
-		m.XferPipe().Append(r)
+		if err = m.XferPipe().Append(r); err != nil {
+			return err
+		}
 	}
 
 	// read body
